@@ -39,7 +39,11 @@ LATER_HINTS = ['LATER', 'Optional[LATER]', 'List[LATER]', 'LATERG[int]', 'Dict[s
 # (class UIntList(List[int]), metaclass type): right class with wrong items must still be rejected
 # LATERG: a *generic* class bound after the definition and subscripted inside the string ('LaterG[int]')
 
-PLACEMENTS = ['module', 'method', 'nested_method', 'closure', 'closure_in_method', 'class_attr', 'class_nested_attr']
+PLACEMENTS = ['module', 'method', 'nested_method', 'closure', 'closure_in_method', 'class_attr', 'class_nested_attr',
+              'pep695_method', 'pep695_nested', 'pep695_func']
+# pep695_*: the annotation mentions a PEP 695 type parameter TP (bound: UA) of the decorated generic class -- from a
+# method of that class, from a method of a class nested in it -- or of a decorated generic function
+P695_HINTS = ['TP', 'List[TP]', 'Optional[TP]', 'Dict[str, TP]', 'Tuple[TP, int]']
 # class_attr / class_nested_attr: @beartype decorates the (outer) class and the annotation names an
 # attribute of the class body that defines the method (for the nested variant the outer class binds
 # the same name differently)
@@ -130,6 +134,17 @@ def module_source(hint, placement, form):
         src += _indent(after, 8) if after else ''
         src += '        return f\nTARGET = K().mk()\n'
         return src, False
+    if placement.startswith('pep695'):
+        ann695 = ann.replace('TP', 'T')
+        if placement == 'pep695_method':
+            src += f'@beartype\nclass G[T: UA]:\n    def m(self, x: {ann695}) -> {ann695}:\n        return x\nTARGET = G.m\n'
+            return src, True
+        if placement == 'pep695_nested':
+            src += (f'@beartype\nclass G[T: UA]:\n    class N:\n        def m(self, x: {ann695}) -> {ann695}:\n            return x\n'
+                    f'TARGET = G.N.m\n')
+            return src, True
+        src += f'@beartype\ndef f[T: UA](x: {ann695}) -> {ann695}:\n    return x\nTARGET = f\n'
+        return src, False
     if placement in ('class_attr', 'class_nested_attr'):
         # LATER stands for the class-body name here; it is bound *before* the method (the subject is
         # which class body the string is evaluated in, not definition order)
@@ -150,6 +165,13 @@ def cases(tier, seed):
     for pl in PLACEMENTS:
         for form in FORMS:
             if pl.startswith('class_') and form.startswith('later'):
+                continue
+            if pl.startswith('pep695'):
+                if form.startswith('later'):
+                    continue
+                for h in (P695_HINTS if tier != 'quick' else P695_HINTS[:3]):
+                    name = f'{pl}:{form}:{h}'
+                    out.append((name, {'hint': h, 'placement': pl, 'form': form}, {}, {'gen': 'c07', 'name': name}))
                 continue
             for h in (lhints if (form.startswith('later') or pl.startswith('class_')) else hints):
                 if pl.startswith('class_') and ('LATERG' in h or 'LATERL' in h):
@@ -318,7 +340,10 @@ def replay_c07(p):
         try:
             obj = universe.build(p['obj'])
             t = mod.TARGET
-            args = (mod.K.N() if spec['placement'] in ('nested_method', 'class_nested_attr') else mod.K(), obj) if has_self else (obj,)
+            if spec['placement'].startswith('pep695'):
+                args = ((mod.G.N() if spec['placement'] == 'pep695_nested' else mod.G()), obj) if has_self else (obj,)
+            else:
+                args = (mod.K.N() if spec['placement'] in ('nested_method', 'class_nested_attr') else mod.K(), obj) if has_self else (obj,)
             try:
                 t(*args)
                 return 'accept'
